@@ -45,6 +45,9 @@ type G struct {
 	noPark bool
 	// Steps counts how many times this goroutine was released.
 	Steps int
+	// SelRot is the probe order for the priority select the goroutine is about
+	// to execute (0 source order, 1 reverse), set by the driver on release.
+	SelRot int
 }
 
 type Child struct{ id string }
@@ -336,4 +339,20 @@ func (s *Sched) ReleaseAll() {
 	for _, g := range ps {
 		g.wake <- struct{}{}
 	}
+}
+
+// SelRot tells a rewritten select in which order to probe its cases.
+func SelRot() int {
+	if !enabled.Load() || lockOnly.Load() {
+		return 0
+	}
+	s := cur.Load()
+	id := goid()
+	s.mu.Lock()
+	g := s.gs[id]
+	s.mu.Unlock()
+	if g == nil {
+		return 0
+	}
+	return g.SelRot
 }
